@@ -105,7 +105,7 @@ type checker struct {
 	stored     []syntax.Pos         // every Pos stored in the tree
 	escComEnds []syntax.Pos         // End() of comments whose text ends in backslash-newline
 	lang       syntax.LangVariant
-	tabs       bool                 // the input has a <<- here-document: leading tabs of body lines are dropped
+	tabs       bool // the input has a <<- here-document: leading tabs of body lines are dropped
 	src        string
 	bquote     bool // the input has a backquote: backquote-level backslashes may have been dropped
 	fails      []failure
@@ -698,6 +698,152 @@ func hdocEnds(child syntax.Node, end syntax.Pos) bool {
 	return found
 }
 
+// ---------------------------------------------------------------- fragment leg (coq/Syntax/PosCheck.v)
+
+// The node fragment of PosCheck.v: File > Stmt(;|&) > CallExpr > Word with one part > Lit | SglQuoted.
+type fragRow struct {
+	Src     string     `json:"src"`
+	Stmts   [][]any    `json:"stmts"`   // per stmt: [pos3, semi3|null, [[kind, p1_3, p2_3, valuehex]...]]
+	Derived [][3]int64 `json:"derived"` // Go Pos()/End(): file, then per stmt: stmt, call, each word
+	GoOK    bool       `json:"go_ok"`
+	Mut     string     `json:"mut,omitempty"`
+}
+
+func p3(p syntax.Pos) [3]int64 { return [3]int64{int64(p.Offset()), int64(p.Line()), int64(p.Col())} }
+
+func inFragment(f *syntax.File) bool {
+	if len(f.Last) > 0 || len(f.Stmts) == 0 {
+		return false
+	}
+	for _, s := range f.Stmts {
+		ce, ok := s.Cmd.(*syntax.CallExpr)
+		if !ok || len(s.Comments) > 0 || len(s.Redirs) > 0 || s.Negated || s.Coprocess || s.Disown || len(ce.Assigns) > 0 || len(ce.Args) == 0 {
+			return false
+		}
+		for _, w := range ce.Args {
+			if len(w.Parts) != 1 {
+				return false
+			}
+			switch x := w.Parts[0].(type) {
+			case *syntax.Lit:
+			case *syntax.SglQuoted:
+				if x.Dollar {
+					return false
+				}
+			default:
+				return false
+			}
+		}
+	}
+	return true
+}
+
+func fragDump(src string, f *syntax.File, mut string) fragRow {
+	row := fragRow{Src: hx.Hex(src), Mut: mut}
+	row.Derived = append(row.Derived, p3(f.Pos()), p3(f.End()))
+	for _, s := range f.Stmts {
+		ce := s.Cmd.(*syntax.CallExpr)
+		var semi any
+		if s.Semicolon.IsValid() {
+			semi = p3(s.Semicolon)
+		}
+		var parts []any
+		row.Derived = append(row.Derived, p3(s.Pos()), p3(s.End()), p3(ce.Pos()), p3(ce.End()))
+		for _, w := range ce.Args {
+			row.Derived = append(row.Derived, p3(w.Pos()), p3(w.End()))
+			switch x := w.Parts[0].(type) {
+			case *syntax.Lit:
+				parts = append(parts, []any{0, p3(x.ValuePos), p3(x.ValueEnd), hx.Hex(x.Value)})
+			case *syntax.SglQuoted:
+				parts = append(parts, []any{1, p3(x.Left), p3(x.Right), hx.Hex(x.Value)})
+			}
+		}
+		row.Stmts = append(row.Stmts, []any{p3(s.Position), semi, parts})
+	}
+	row.GoOK = len(checkTree(src, f, syntax.LangBash).fails) == 0
+	return row
+}
+
+func genFragSrc(r *rand.Rand) string {
+	var sb strings.Builder
+	word := func() {
+		if r.IntN(3) == 0 {
+			sb.WriteByte('\'')
+			for i := r.IntN(5); i > 0; i-- {
+				sb.WriteString(hx.Pick(r, []string{"x", "y", " ", ";", "&", "\n", "é", "$", "\""}))
+			}
+			sb.WriteByte('\'')
+		} else {
+			for i := 1 + r.IntN(4); i > 0; i-- {
+				sb.WriteString(hx.Pick(r, []string{"x", "y", "z", "q", "1", "_", "/", ".", "é", "世"}))
+			}
+		}
+	}
+	sb.WriteString(hx.Pick(r, []string{"", "", " ", "\n", "\t"}))
+	for n := 1 + r.IntN(4); n > 0; n-- {
+		for k := 1 + r.IntN(3); k > 0; k-- {
+			word()
+			if k > 1 {
+				sb.WriteString(hx.Pick(r, []string{" ", "  ", "\t"}))
+			}
+		}
+		if n > 1 {
+			sb.WriteString(hx.Pick(r, []string{"; ", ";", "\n", " &\n", " & ", "\n\n", " ;\n"}))
+		} else {
+			sb.WriteString(hx.Pick(r, []string{"", "", ";", " &", "\n"}))
+		}
+	}
+	return sb.String()
+}
+
+// perturb one stored position of the tree by one (offset, column, line, or offset and column together)
+func perturb(r *rand.Rand, f *syntax.File) string {
+	var ptrs []*syntax.Pos
+	var names []string
+	for si, s := range f.Stmts {
+		ptrs = append(ptrs, &s.Position)
+		names = append(names, fmt.Sprintf("stmt%d.Position", si))
+		if s.Semicolon.IsValid() {
+			ptrs = append(ptrs, &s.Semicolon)
+			names = append(names, fmt.Sprintf("stmt%d.Semicolon", si))
+		}
+		for wi, w := range s.Cmd.(*syntax.CallExpr).Args {
+			switch x := w.Parts[0].(type) {
+			case *syntax.Lit:
+				ptrs = append(ptrs, &x.ValuePos, &x.ValueEnd)
+				names = append(names, fmt.Sprintf("stmt%d.arg%d.ValuePos", si, wi), fmt.Sprintf("stmt%d.arg%d.ValueEnd", si, wi))
+			case *syntax.SglQuoted:
+				ptrs = append(ptrs, &x.Left, &x.Right)
+				names = append(names, fmt.Sprintf("stmt%d.arg%d.Left", si, wi), fmt.Sprintf("stmt%d.arg%d.Right", si, wi))
+			}
+		}
+	}
+	i := r.IntN(len(ptrs))
+	p := *ptrs[i]
+	o, l, c := int(p.Offset()), int(p.Line()), int(p.Col())
+	d := 1
+	if r.IntN(2) == 0 {
+		d = -1
+	}
+	kind := r.IntN(4)
+	switch kind {
+	case 0:
+		o += d
+	case 1:
+		c += d
+	case 2:
+		l += d
+	default:
+		o += d
+		c += d
+	}
+	if o < 0 || l < 1 || c < 1 {
+		return ""
+	}
+	*ptrs[i] = syntax.NewPos(uint(o), uint(l), uint(c))
+	return fmt.Sprintf("%s kind%d %+d", names[i], kind, d)
+}
+
 type searchRow struct {
 	In    string    `json:"in"`
 	Lang  string    `json:"lang"`
@@ -810,6 +956,27 @@ func main() {
 		}
 		hx.Emit(map[string]any{"summary": map[string]int{"inputs": t.inputs, "trees": t.trees, "nodes": t.nodes, "positions": t.positions,
 			"failing_inputs": t.failing, "corpus": len(corpus), "mutations_total": total}})
+	case "frag":
+		r := hx.Rand(o.Seed, 9090)
+		emitted := 0
+		for tries := 0; emitted < o.N && tries < 20*o.N; tries++ {
+			src := genFragSrc(r)
+			f, err := hxreader.ParseWith(strings.NewReader(src), syntax.LangBash)
+			if err != nil || !inFragment(f) {
+				continue
+			}
+			hx.Emit(fragDump(src, f, ""))
+			emitted++
+			// and a perturbed copy of the same tree
+			f2, _ := hxreader.ParseWith(strings.NewReader(src), syntax.LangBash)
+			if m := perturb(r, f2); m != "" {
+				var row fragRow
+				if p, _ := hx.Try(func() { row = fragDump(src, f2, m) }); !p {
+					hx.Emit(row)
+					emitted++
+				}
+			}
+		}
 	case "witness":
 		// the witnesses of the listed known findings, every time: each must still fail in its class
 		for _, w := range witnesses {
